@@ -3,6 +3,7 @@ From Coq Require Import Sorted.
 From HTA.lib Require Import Base.
 From HTA.model Require Import C16_Model.
 From HTA.proof Require Import C16_Proofs.
+From HTA.proof Require Import Scale C16_Scale.
 Open Scope Z_scope.
 
 Theorem C16_counts_and_durations : forall is,
@@ -37,3 +38,10 @@ Definition f16 : list ev :=
     mkEv 9 33 2 0 7 7 9 8 (-1) "a" "kernel" ].
 Example C16_nonvacuous : encode_C16 ["a"; "aten::linear"; "b"] f16 "aten::linear" 1 = [[1; 2; 9; 1; 0]; [1; 5; 20; 1; 0; 2]].
 Proof. vm_compute. reflexivity. Qed.
+
+(* resolution independence: times multiplied by k > 0 give the same patterns with the same counts, and k times the GPU and CPU
+   durations *)
+Theorem C16_resolution_independent : forall k l op minlen, 0 < k ->
+  patterns (instances (scale_evs k l) op minlen) = map (spat k) (patterns (instances l op minlen)).
+Proof. exact C16_scale. Qed.
+Print Assumptions C16_resolution_independent.
